@@ -114,7 +114,10 @@ var (
 	getJars     = []string{"faithful", "no-session", "tracking-as-session", "tampered-session"}
 	users       = []string{"alice", "bob", "mallory"}
 	roots       = []string{"https://sp.example.com/", "http://sp.example.com/", "https://sp.example.com:8443/", "https://sp.example.com/app/", "http://localhost:8000/"}
-	pageURLs    = []string{"/", "/a", "/a/b?x=1&y=2", "/page/", "/p?next=%2Fq", "/caf%C3%A9?q=%26", "/app/page", "/deep/er/path.html?u=https%3A%2F%2Fevil.example%2F", "/x?RelayState=zzz", "//evil.example/x", "///evil.example/x", "////evil.example/x?y=1", "/a:b/c"}
+	pageURLs    = []string{"/", "/a", "/a/b?x=1&y=2", "/page/", "/p?next=%2Fq", "/caf%C3%A9?q=%26", "/app/page", "/deep/er/path.html?u=https%3A%2F%2Fevil.example%2F", "/x?RelayState=zzz", "//evil.example/x", "///evil.example/x", "////evil.example/x?y=1", "/a:b/c",
+		// percent-encoded reserved characters: the URL asked for is the ESCAPED one, "/wiki/AC%2FDC" is not "/wiki/AC/DC"
+		"/wiki/AC%2FDC", "/a%3Fb/c%23d?x=1", "/100%25/x%3By", "/caf%C3%A9/%E2%9C%93?q=%E2%9C%93", "/a+b/c;d=e,f", "/lower/ac%2fdc", "/p%2F%2Fevil.example/x",
+		"/search?q=a%26b%3Dc&r=%2F&s=1+2", "/cb?next=%2F%2Fevil.example%2Fx&sig=a%3D%3D", "/wiki/AC%2FDC?title=AC%2FDC%3F"}
 )
 
 const attackerURL = "https://evil.example/landing"
@@ -1577,7 +1580,7 @@ func enumDFS(tier string, emit func(Case)) {
 	if tier == "thorough" {
 		jobs = []job{{cfgA, 4, cookieModes, relayModes}, {cfgB, 4, minCM, relayModes}, {cfgC, 4, cookieModes, minRM}, {cfgD, 4, cookieModes, relayModes}, {cfgE, 3, cookieModes, relayModes}, {cfgA, 5, minCM, minRM}}
 	}
-	urls := []string{"/a", "/b?x=1"}
+	urls := []string{"/wiki/AC%2FDC?q=a%26b%3Dc", "/b%3Fx/y?x=1"} // encoded reserved characters in path and query
 	type st struct{ nflows, nresps int }
 	for _, jb := range jobs {
 		jb := jb
@@ -1628,7 +1631,7 @@ var prop = &pbt.Prop[Case]{
 		"the model browser follows RFC 6265: a cookie is identified by name, domain and path, a Set-Cookie with a Domain attribute equal to the request host replaces the host-only cookie of the same name and path",
 		"AllowIDPInitiated is false; the ACS receives HTTP-POST responses minted by the library's own IdP (key 'idp'), unsolicited ones by ServeIDPInitiated",
 		"instants within 1 s of the tracking lifetime or of the session lifetime end the judged part of a history",
-		"requested URLs are in normal form (no dot segments); a Location is resolved as a browser at the deployment's origin would; for a requested path with leading double slashes landing on the same path with them collapsed, at the deployment's origin, is accepted too",
+		"requested URLs are in normal form (no dot segments, no empty inner segments) and may carry percent-encoded reserved characters in path and query, which must come back exactly as asked (escaped form compared); a Location is resolved as a browser at the deployment's origin would; for a requested path with leading double slashes landing on the same path with them collapsed, at the deployment's origin, is accepted too",
 		"for ECDSA SP keys the IdP is given the SP metadata without the encryption key descriptor (an EC certificate cannot receive RSA-OAEP; see C07)",
 		"custom RelayStateFunc values are valid cookie names (they may need URL escaping: \"flow+1&b#c%41!~\")",
 		"a relative DefaultRedirectURI (\"home\") may be resolved against the ACS URL (as the browser would) or against the root URL",
